@@ -2,7 +2,7 @@
    template model prescribes for the corpus schema -- by computation, on every run, for the plain and for the
    keep_unknown_fields configuration; and the chain  emitted text -> ops -> Gen.v  for the corpus. *)
 From Coq Require Import String Lia.
-From PVGen Require Import Gen GenSpec EmitOps EmitDen Generated.EmittedOps Proofs.GenBase Proofs.EmitOpsP.
+From PVGen Require Import Gen GenSpec EmitOps EmitDen Generated.EmittedOps Proofs.GenBase Proofs.EmitOpsP Proofs.EmitDecP.
 Open Scope Z_scope.
 
 (* ---------- generic: what ops_match says about one row ---------- *)
@@ -121,4 +121,15 @@ Proof.
     destruct r as [|nm e eu s su d|nm e eu s su d|nm|nm e s d]; try discriminate Hrow.
     exists nm, e, eu, s, su, d. split; [reflexivity|]. cbn [norm_row] in Hrow.
     exact (f_equal (fun x => match x with EUnion _ _ _ _ _ y => y | _ => norm_du d end) Hrow).
+Qed.
+
+(* the decoders of the plain build: arbitrary bytes, every fuel *)
+Lemma corpus_wf : wf_schema corpus_schema = true.
+Proof. vm_compute. reflexivity. Qed.
+
+Theorem emitted_decode_is_model : forall p fuel t s,
+  den_dec (map norm_row emitted_plain) (dfl_of corpus_schema) p fuel (presc_rop t) s = gen_decode corpus_schema p fuel t s.
+Proof.
+  intros p fuel t s. rewrite emitted_plain_table.
+  exact (den_dec_presc corpus_schema p corpus_void_variants_zero corpus_wf fuel t s).
 Qed.
